@@ -214,14 +214,37 @@ func bind(c Case) (v verdict) {
 	// &rest together with &key: CLHS puts the whole tail into the rest parameter and requires it to be keyword/value
 	// pairs; slip (pinned by its suite: ((lambda (x &optional y &rest z &key k1 k2) ...) 1 2 3 4 :k1 5) binds z to
 	// (3 4)) collects the arguments before the first declared keyword. The property statement does not choose, so the
-	// rest parameter is not judged when keys follow, and a tail that is not made of pairs is open as a whole.
+	// rest parameter may hold either of the two when keys follow; a tail that is not made of pairs may also be rejected.
 	both := c.Rest != "" && len(c.Key) > 0
 	if c.Rest != "" {
 		switch {
 		case len(tail) == 0:
 			set(c.Rest, []string{"nil"})
 		case both:
-			set(c.Rest, nil)
+			// one of the two documented readings: the whole tail (CLHS), or the arguments before the first keyword
+			// that names a &key parameter of this lambda list (slip, pinned by its suite)
+			declared := map[string]bool{}
+			for _, p := range c.Key {
+				declared[":"+p.Name] = true
+			}
+			var whole, prefix []string
+			stop := false
+			for _, a := range tail {
+				whole = append(whole, argText(a))
+				if isKeyword(a) && declared[strings.ToLower(a)] {
+					stop = true
+				}
+				if !stop {
+					prefix = append(prefix, argText(a))
+				}
+			}
+			text := func(ts []string) string {
+				if len(ts) == 0 {
+					return "nil"
+				}
+				return "(" + strings.Join(ts, " ") + ")"
+			}
+			set(c.Rest, []string{text(whole), text(prefix)})
 		default:
 			ts := make([]string, len(tail))
 			for i, a := range tail {
